@@ -1247,6 +1247,16 @@ fn parse_makeflags<S: AsRef<OsStr>>(flags: S) -> Result<Option<(RawFd, RawFd)>, 
     }
 }
 
+#[cfg(feature = "verif")]
+pub mod verif_hooks {
+    use std::ffi::OsStr;
+
+    /// The private `MAKEFLAGS` parser, for the correspondence check.
+    pub fn verif_parse_makeflags(flags: &OsStr) -> Result<Option<(i32, i32)>, String> {
+        super::parse_makeflags(flags).map_err(|e| e.to_string())
+    }
+}
+
 #[cfg(test)]
 mod tests {
     use super::*;
